@@ -404,6 +404,9 @@ func (p *Program) InstrPos(in ssa.Instruction) string {
 	if in == nil {
 		return "-"
 	}
+	if rt, ok := in.(*ssa.Return); ok {
+		in = OrigReturn(rt)
+	}
 	if in.Pos().IsValid() {
 		return p.Pos(in.Pos())
 	}
